@@ -88,7 +88,10 @@ def main():
             p_rel = c07.write_puml(d, f"rel{i}.puml", c["short"], [(short[a], short[b]) for a, b in c["rel"]], random.Random(rng.randrange(1 << 30)))
             p_abs = c07.write_puml(d, f"abs{i}.puml", c["comps"], c["rel"], random.Random(rng.randrange(1 << 30)))
             extra = [(b, a) for a, b in c["rel"]][:3]
-            for edges in (c["edges"], c["edges"][: len(c["edges"]) // 2], [], c["edges"] + extra):
+            # one component importing SEVERAL components it has no arrow to: several objects of one generated should-not rule are violated
+            x = c["comps"][0]
+            fan = [(x, y) for y in c["comps"][1:] if (x, y) not in c["rel"]][:4]
+            for edges in (c["edges"], c["edges"][: len(c["edges"]) // 2], [], c["edges"] + extra, c["edges"] + fan, fan):
                 arch = rules.make_arch_direct(c["nodes"], edges)
                 for how, mk in (("relative names, with_base_module(%r)" % c["base"], lambda: DiagramRule().from_file(p_rel).with_base_module(c["base"])),
                                 ("absolute names, base_module_included_in_module_names", lambda: DiagramRule().from_file(p_abs).base_module_included_in_module_names()),
